@@ -91,6 +91,13 @@ CHECKS.append(check(
     "deterministic simulation: seeded public-call histories on persistent receiver state executed by a reference interpreter (model) of programs the real checker accepted, with a derived-range/safety monitor; seeded near-miss program generation",
     "DESIGN.md section 3 D, section 5 C01, Appendix E"))
 
+CHECKS.append(check(
+    "C02", "wsim", "exploration",
+    "The working tree's checker is built with one observation call injected at check time (go build -overlay; /repo untouched) at the head of bcheckBlock's statement loop and one at its end, reporting the fact list held before every statement and at the end of every block. One run = one program (hand corpus; the C01 near-miss generator; a free-form control-flow generator over =, +=, -=, other compound operators with variable and constant operands, impure calls, field stores, if / else-if / else, labelled while loops with inv and post conditions, break, continue, asserts; an axiom-instance generator that reads lang/check/axioms.md from the working tree and establishes each axiom's premises exactly, or weakened - operator relaxed, operands swapped, premise dropped) given to the checker; an accepted program is executed by the reference interpreter under a seeded history of public calls on a persistent receiver, and each time execution reaches a statement or leaves a block normally - every loop iteration, every call - every recorded fact (if/while conditions, assignment equalities and bounds, rewritten facts, proven asserts and axiom conclusions, reconciled if/else facts, loop inv/post) is evaluated in ideal integers on the concrete state and must be true.",
+    "Sampling of programs x call histories. All 20 axioms are reached (per-axiom and per-variant acceptance counts are in the evidence). Facts the evaluator cannot interpret are counted as skipped, never reported (observed: only the step budget). The interpreter shares the front end with the compiler (common-mode). Coroutines and I/O built-ins are outside the interpreter's subset: fact invalidation at suspension points (updateFactsForSuspension), io_bind/io_limit and iterate are NOT reached by this check. If bcheckBlock no longer has the shape the injected observer needs, the check exits 2 (no verdict). Own probes (facts kept by only one if/else branch; impure call keeps receiver facts; one axiom premise weakened in data.go; loop invariant not re-proven on the implicit continue; wrong sign in the -= rewrite) are each caught by the quick tier.",
+    "deterministic simulation: seeded public-call histories on persistent receiver state executed by a reference interpreter (model), with the real checker's per-statement fact lists (observer injected at check time) evaluated as invariants at every executed statement",
+    "DESIGN.md section 3 D, section 4, section 5 C02, Appendix E"))
+
 NA_REASONS = {
  "C06": "pure function of two big.Int interval pairs: no stream, state, schedule, fault or history exists for a simulator to control (DESIGN.md section 7)",
  "C10": "static property of an object file (sections, symbols) plus constness of pure methods: decided by inspecting a binary, not by simulating executions (DESIGN.md section 7)",
@@ -126,7 +133,7 @@ def main():
         },
         "engines": [
             {"name": "envsim", "path": "/verif/engines/envsim", "serves_properties": ["C20"], "kind_free_text": "the real compiler under seeded map-iteration / directory-enumeration order (rewrite/maprange.go + engines/envsim/rt as a virtual package), environment, cwd and GOMAXPROCS; whole `wuffs gen std/...` runs compared by artefact hash"},
-            {"name": "wsim", "path": "/verif/engines/wsim", "serves_properties": ["C01"], "kind_free_text": "reference interpreter over the AST returned by the working tree's check.Check (ideal integers), derived-range and safety monitor, seeded near-miss program generator and public-call histories"},
+            {"name": "wsim", "path": "/verif/engines/wsim", "serves_properties": ["C01", "C02"], "kind_free_text": "reference interpreter over the AST returned by the working tree's check.Check (ideal integers), derived-range and safety monitor, seeded near-miss / control-flow / axiom-instance program generators and public-call histories; for C02 the checker's fact lists are observed through rewrite/factobs.go"},
             {"name": "csim", "path": "/verif/engines/csim", "serves_properties": ["C03", "C05", "C07", "C08", "C09"], "kind_free_text": "I/O-delivery schedule simulator: a Go-side producer/consumer drives, call by call, a C driver child (/verif/csim/driver.c) linked against C that `wuffs gen` produces from the working tree at check time; sanitizer and -O2 builds, cached by content hash"},
             {"name": "gosim", "path": "/verif/engines/gosim", "serves_properties": ["C14"], "kind_free_text": "seeded goroutine scheduler (simrt) under the real lib/rac concurrent reader, whose channel constructs are rewritten at check time by /verif/rewrite and injected with go build -overlay"},
             {"name": "disksim", "path": "/verif/engines/disksim", "serves_properties": ["C13", "C15"], "kind_free_text": "simulated storage (fault-injecting io.Writer/TempFile, op-counting ReadSeeker) under the real lib/rac writer and readers"},
